@@ -93,7 +93,8 @@ def do_call(S, call):
 
 
 # ---------------------------------------------------------------------------------------------- finder: the property text
-def check_property(S, before, case, status, res):
+def check_property(S, before, case, status, res, margin=None):
+    margin = MARGIN if margin is None else margin
     bad = []
     a, b, c = radii3(case["call"])
     rad = numpy.array([a, b, c], dtype=float)
@@ -131,7 +132,7 @@ def check_property(S, before, case, status, res):
     ok_center = False
     for cx in pos:
         d = numpy.sqrt((((pos - cx) / rad) ** 2).sum(axis=1))
-        if (d <= 1 + MARGIN).all():
+        if (d <= 1 + margin).all():
             ok_center = True
             break
     if not ok_center:
@@ -157,7 +158,7 @@ def check_property(S, before, case, status, res):
         mm = numpy.round(numpy.diag(NB.dot(RB))).astype(int)
         tags = numpy.array([getattr(g, "tag", -1) for g in N])
         d_all = numpy.sqrt((((pos[:, None, :] - pos[None, :, :]) / rad) ** 2).sum(axis=2))
-        centres = [i for i in range(len(pos)) if (d_all[:, i] <= 1 + MARGIN).all()]
+        centres = [i for i in range(len(pos)) if (d_all[:, i] <= 1 + margin).all()]
         cx = pos[centres[0]]
         for tag, p in enumerate(parents):
             for i in range(int(mm[0])):
@@ -165,7 +166,7 @@ def check_property(S, before, case, status, res):
                     for k in range(int(mm[2])):
                         x = pcart[tag] + i * B[0] + j * B[1] + k * B[2]
                         # present unless outside for EVERY admissible centre (the centre is not unique within the margin)
-                        if all(math.sqrt((((x - pos[ci]) / rad) ** 2).sum()) < 1 - MARGIN for ci in centres):
+                        if all((math.sqrt((((x - pos[ci]) / rad) ** 2).sum()) < 1 - margin) or (margin == 0 and math.sqrt((((x - pos[ci]) / rad) ** 2).sum()) <= 1) for ci in centres):
                             mine = pos[tags == tag]
                             if len(mine) == 0 or numpy.abs(mine - x).max(axis=1).min() > 1e-6 * scale:
                                 bad.append(("complete inside the returned cell", "site of parent %d + (%d,%d,%d) is inside but missing" % (tag, i, j, k)))
@@ -348,6 +349,23 @@ def directed_cases(ctx):
         status, res = do_call(S, case["call"])
         ctx.count(("directed", "rotated-180"))
         n += report(ctx, case, check_property(S, before, case, status, res))
+    # sites lying EXACTLY on the surface (binary-exact cells and radii, so the float decision is exact): they are inside
+    import copy
+    for k, (edge, atoms, call) in enumerate([
+            (2.0, [[0.0, 0.0, 0.0]], {"fn": "makeSphere", "radii": [2.0]}),
+            (2.0, [[0.0, 0.0, 0.0]], {"fn": "makeEllipsoid", "radii": [6.0, 2.0, 4.0]}),
+            (4.0, [[0.0, 0.0, 0.0], [0.5, 0.5, 0.5]], {"fn": "makeSphere", "radii": [4.0]}),
+            (1.0, [[0.25, 0.25, 0.25]], {"fn": "makeEllipsoid", "radii": [1.0, 2.0]})]):
+        case = copy.deepcopy(ROTATED)
+        case["structure"]["lattice"] = {"kind": "base", "base": [[edge, 0.0, 0.0], [0.0, edge, 0.0], [0.0, 0.0, edge]]}
+        proto = case["structure"]["atoms"][0]
+        case["structure"]["atoms"] = [dict(proto, xyz=x, label="B%d" % i, extra=dict(proto.get("extra", {}), tag=i)) for i, x in enumerate(atoms)]
+        case["call"] = call
+        S = h15.build_structure(case["structure"])
+        before = h15.snapshot(S)
+        status, res = do_call(S, case["call"])
+        ctx.count(("directed", "surface", k))
+        n += report(ctx, case, check_property(S, before, case, status, res, margin=0))
     return n
 
 
